@@ -21,7 +21,8 @@ def prop(pid, **kw):
 
 
 prop("C02",
-     units=["hist"],
+     units=["hist", "queue"],
+     scans=["history-writers"],
      level="proof",
      claim="History::{push,undo,redo} implement the cursor-over-a-list semantics of the statement, for all stacks",
      assumptions=["A-clone: the derived Clone of Diff yields an equal value"],
@@ -49,6 +50,17 @@ prop("C11",
      claim="no panic (overflow, index, unwrap, division) in the listed text-consuming functions for ANY input string",
      assumptions=["std string functions do not panic on valid &str (their vstd/assumed specs)"],
      residual="the recursive-descent parser, format_number and set_user_input as wholes are not under contract")
+
+
+prop("C03",
+     units=["queue"],
+     scans=["history-writers"],
+     level="proof",
+     claim="protocol part: the queue holds exactly the (tag, list) pairs in the order the sender applied them; flush returns enc(queue) and empties it; "
+           "the replica applies, in order, spec_redo/spec_undo of each decoded entry; batching only re-brackets a concatenation (lemma_apply_seq_concat)",
+     assumptions=["A-apply: apply_diff_list/apply_undo_diff_list are deterministic functions of (model view, list) and leave history and queue alone (frame re-checked by scan history-writers)",
+                  "A-bitcode: decode(encode(q)) == q", "A-clone: derived Clone of Diff yields an equal value"],
+     residual="that apply_diff_list(d) on the replica has the same effect as the user-level operation had on the sender (needs Model semantics)")
 
 
 def evidence(pid, tier, seed, results, scan_results, kani_results, violations, known_hits, undecided, wall):
